@@ -28,19 +28,7 @@ ANCHOR_RANGES = [(170, 229), (231, 262), (362, 408), (457, 473)]
 SPEC_N_LIMIT = 2000          # the counting spec walks 7*|n| days: only evaluated for |n| <= this
 
 
-# ------------------------------------------------------------------ known findings
-
-def m_yearday366_leap(payload):
-    """F-C03-yearday366: relativedelta(yearday=366) alone, added to a date of a leap year"""
-    import calendar
-    inp = payload.get("input") or {}
-    kw = inp.get("kw") or {}
-    v = (inp.get("dt") or {}).get("v") or []
-    return (payload.get("kind", "").startswith("yearday/nlyearday") and kw == {"yearday": 366}
-            and len(v) >= 2 and calendar.isleap(v[1]))
-
-
-MATCHERS = {"m_yearday366_leap": m_yearday366_leap}
+MATCHERS = {}     # no open finding (F-C03-yearday366 was fixed in /repo by f29aa05; its input stays in the corpus)
 
 # ------------------------------------------------------------------ implementation side
 
@@ -541,8 +529,8 @@ def main():
         "theorem_guards": {
             "C03_add_dt_spec / C03_sub_spec / C03_add_fix_spec_raw": "wf_rd d: relative fields normalised (C03_mk_normalised: "
             "true of every constructed delta), absolute year/month/day != 0, month in 1..12, weekday in 0..6; operand valid",
-            "C03_yearday_spec / C03_nlyearday_spec": "1 <= n <= 365, date operand; n = 366 on a leap year is "
-            "C03_yearday_366_leap_refuted = finding F-C03-yearday366",
+            "C03_yearday_spec_full / C03_nlyearday_spec": "yearday: 1 <= n <= length of the operand's year; "
+            "nlyearday: 1 <= n <= 365 (yearday=366 on leap years: fixed in /repo by f29aa05, regression input in the corpus)",
             "C03_month_shift_exact / C03_clip_never_spills": "|months| <= 11 (normalised), operand valid"},
         "only_differential_tested": ["aware operands (tzinfo carried untouched; the model has no tzinfo)",
                                       "float-valued fields (not generated here; see C16)",
